@@ -18,7 +18,7 @@ def _load(pid):
     return importlib.import_module(f"harness.{pid.lower()}")
 
 
-class _Timeout(Exception):
+class _Timeout(BaseException):      # not an Exception: path.explore must not swallow the shape budget alarm
     pass
 
 
